@@ -29,7 +29,7 @@ extern "C" void sym_body()
     const long          tgt   = static_cast<long>(kinds.size()) - 1;
     symsource_t         src(kinds, n, tgt, static_cast<int>(cfgi("miss", 1)));
     src.load();
-    dataset_t ds(src, 1);
+    dataset_t ds(src, setup_workers(cfgi("threads", 1), cfgi("sched", 0))); // threads>1: sequentialised multi-worker pool (see sre_support.cpp)
     add_identity_generators(ds);
 
     indices_t samples = all_samples(n);
